@@ -406,13 +406,14 @@ Definition finish_bool (c : ctx) (code : list instr) (t : nat) (n : nat) : gres 
 
 (* --- calls of C functions with keyword arguments --- *)
 (* ExprNode.is_simple() asked BEFORE type analysis: names, constants, attribute chains on such, and every
-   node class whose is_temp is set at class level (tuple / list / set / dict displays, f-strings, and / or,
-   conditional expressions) *)
+   node class whose is_temp is set at class level (tuple / list / set / dict displays, a single formatted
+   value f"{e}", and / or, conditional expressions).  Silent constructions with an odd identifier are the
+   ones that do not answer "simple" at that stage (an f-string of several parts is still a chain of AddNodes) *)
 Fixpoint bsimple (e : expr) : bool :=
   match e with
   | EName _ | ENone => true
   | EOp (OGetAttr _) [o] => bsimple o
-  | EOp (OSeq _) _ => true
+  | EOp (OSeq id) _ => Nat.even id
   | EAnd _ _ | EOr _ _ | ECond _ _ _ => true
   | _ => false
   end.
